@@ -365,3 +365,12 @@ package encoding
 //@   ensures  result1 == nil ==> len(result0) >= len(dst)
 //@   loop 0 invariant len(dst) >= old(len(dst))
 //@   loop 0 invariant sameobj(dst, old(dst)) && off(dst) == off(old(dst)) && cap(dst) == cap(old(dst)) || fresh(dst)
+//
+// ---- escaped variable-length array entries (array.go forwards to pkg/encoding/vararray) ----
+//@ func UnmarshalVarArray
+//@   property C11
+//@   mode int
+//@   requires 0 <= idx
+//@   modifies src[idx:len(src)]
+//@   ensures  bounds: result2 == nil ==> idx <= result0 && result0 < result1 && result1 <= len(src)
+//@   ensures  tail: result2 == nil ==> (forall j :: result1 <= j && j < len(src) ==> src[j] == old(src[j]))
